@@ -14,6 +14,7 @@ Decided
       absent optional files (identity whitening, zero shanks / probes, zero similarity, amplitudes None)
   P1  the monotonicity test raises before any write effect
   +   the blanking of unused templates: only templates that are NaN on EVERY sample and channel (mask taken on the whole array) are zeroed
+  +   F2: the try block that loads the inverse whitening matrix does not raise by itself (its handler writes the file: it must run only when the file is absent)
 Not decided: equality of the loaded values with the file contents, dtype assertions, exec of params.py.
 """
 import ast
@@ -150,7 +151,11 @@ def f1_effects(ctx):
                             # the try body must (only) attempt to load the inverse file
                             calls = [c for s_ in node.body for c in ast.walk(s_) if isinstance(c, ast.Call)]
                             loads = [c for c in calls if _reaches_lookup(repo, gfi, c, name, {}, 0)]
-                            if loads:
+                            own_raise = [n for s_ in node.body for n in ast.walk(s_) if isinstance(n, ast.Raise)]
+                            if loads and own_raise:
+                                why = 'the try block raises by itself (`%s`) after the load: the handler that writes %s also runs when the file exists, and overwrites it' % (
+                                    unparse(own_raise[0])[:60], name)
+                            elif loads:
                                 ok = True
                             else:
                                 why = 'the handler that writes %s does not belong to the attempt to load that file' % name
